@@ -141,6 +141,19 @@ def cases(M):
             v["microseconds"] = s * r.choice((999999, 10**6, 10**6 + 1, 59999999, 6 * 10**7, 86399999999, 864 * 10**8))
             v["seconds"] = r.choice((0, s * 59, -s * 60, s * 86399))
             v["days"] = r.choice((0, s * 6, -s * 7, s * 7))
+        elif mode == 5 and j % 16 == 5:
+            # years/months cancelled to within a day by days/weeks of the opposite sign: the whole value as a timedelta is
+            # tiny (native days 0 or -1) while the part excluding years and months is not
+            v = {n: 0 for n in KW}
+            y, mo = r.randrange(-3, 4), r.randrange(-14, 15)
+            v["years"], v["months"] = y, mo
+            tot = -(365 * y + 30 * mo)
+            if r.random() < 0.5:
+                v["weeks"], v["days"] = divmod(tot, 7) if tot >= 0 else (-((-tot) // 7), -((-tot) % 7))
+            else:
+                v["days"] = tot
+            v["hours"] = r.choice((0, 5, -5, 23, -23))
+            v["microseconds"] = r.choice((0, 1, -1, 999999, -500000))
         yield v
 
 
